@@ -32,6 +32,13 @@ CoinbaseFirst(m) == Len(m) >= 1 /\ m[1] = 1
 RootMatches(m, n) == Len(m) >= 1 /\ Root(m) = Root(Ident(n))
 Acceptable(m, n) == NonEmpty(m) /\ CoinbaseFirst(m) /\ RootMatches(m, n) /\ ~HasDup(m)
 
+\* the same for a block whose header commits to the list m itself (rootOK is then true by construction)
+AcceptableCommitted(m) == NonEmpty(m) /\ CoinbaseFirst(m) /\ ~HasDup(m)
+ErrorsCommitted(m) ==
+  (IF ~NonEmpty(m) THEN {"NoTransactions"} ELSE {}) \cup
+  (IF NonEmpty(m) /\ ~CoinbaseFirst(m) THEN {"InvalidCoinbase"} ELSE {}) \cup
+  (IF HasDup(m) THEN {"DuplicateTransactions"} ELSE {})
+
 \* the error variants that apply to a rejected list (no precedence is fixed by the property)
 Errors(m, n) ==
   (IF ~NonEmpty(m) THEN {"NoTransactions"} ELSE {}) \cup
